@@ -6,7 +6,13 @@
     exactly as the check instantiates it (py_isspace, py_islinebreak, re_d,
     nd_val); the hash [H] is universally quantified in every theorem.
     Spec: Pdiff/UpdateSpec.v — Part 1 is what UpdateCheck.holds evaluates, Part 2
-    says what "a repository publishes a pdiff index for a history" means. *)
+    says what "a repository publishes a pdiff index for a history" means (history =
+    oldest version + one EdSpec alignment per patch), Part 3 is the Index file as
+    deb822 text, Part 4 the mirror (Index text, patches, full file) of a history.
+    Hash assumptions are explicit hypotheses of the theorems that need them:
+    [no_collision] (boolean: the local content vs. the n+1 published versions) and,
+    for the fault theorems that conclude "= vn", that no other content has the
+    digest of vn.  Theorem 1 needs no assumption on the hash at all. *)
 From Coq Require Import String.
 From Verif Require Import Lib.Base Lib.Dec Lib.PyStr Gen.PyChars
   Pdiff.Ed Pdiff.EdSpec Pdiff.EdProofs Pdiff.EdInst
@@ -180,6 +186,20 @@ Theorem C19_unusable_index_malformed_field :
     update_file_py H e fs sc = download_file e fs sc.
 Proof. exact (update_file_malformed_field_downloads py_isspace py_islinebreak re_d nd_val). Qed.
 
+(** the same anywhere in the index, as long as no -Current field before it records
+    the digest of the local content (that one returns "up to date" first) *)
+Theorem C19_unusable_index_malformed_field_anywhere :
+  forall H e paras pre f post lines fs sc,
+    let k := choose_kind (concat paras) in
+    f_local fs = Some lines ->
+    read_index py_isspace (e_index e) = Ok (IndexFields paras) ->
+    hash_avail e k = true ->
+    concat paras = pre ++ f :: post ->
+    forallb (not_uptodate py_isspace k (H k lines)) pre = true ->
+    malformed_field py_isspace py_islinebreak k f = true ->
+    update_file_py H e fs sc = download_file e fs sc.
+Proof. exact (update_file_malformed_field_downloads_gen py_isspace py_islinebreak re_d nd_val). Qed.
+
 (** an index that records the history, but whose -Patches field ([psteps]) lacks
     the digest of a patch that would have to be applied (D15, first form) *)
 Theorem C19_unusable_index_missing_digest :
@@ -197,6 +217,23 @@ Theorem C19_unusable_index_missing_digest :
     existsb (fun s => negb (existsb (str_eqb (ps_name s)) (map ps_name psteps))) sfx = true ->
     update_file_py H e fs sc = download_file e fs sc.
 Proof. exact update_missing_digest_downloads_py. Qed.
+
+(** the forms above that can be read off the index alone, as one boolean premise
+    ([unusable_index]: absent | not a deb822 file | no -Current field | a
+    malformed field before any usable -Current), with the conclusion of
+    update_converges *)
+Theorem C19_update_unusable_index_downloads :
+  forall H e fs sc,
+    unusable_index py_isspace py_islinebreak e = true ->
+    update_file_py H e fs sc = download_file e fs sc.
+Proof. exact (update_unusable_index_downloads py_isspace py_islinebreak re_d nd_val). Qed.
+
+Theorem C19_update_unusable_index_converges :
+  forall H e fs sc vn,
+    unusable_index py_isspace py_islinebreak e = true ->
+    full_published e vn = true -> no_faults sc = true -> f_new fs = None ->
+    update_file_py H e fs sc = (Ok vn, mkfs (Some vn) None).
+Proof. exact (update_unusable_index_converges py_isspace py_islinebreak re_d nd_val). Qed.
 
 (** * 4. update_fault_safe, with the premise of the property
 
@@ -262,6 +299,111 @@ Theorem C19_update_garbled_patch_raises :
     existsb (patch_bad (H k) e) sfx = true ->
     exists x, update_file_py H e fs sc = (Err x, fs).
 Proof. exact update_garbled_patch_raises_py. Qed.
+
+(** * 5. The whole verdict table on an intact index
+
+    The property's quantifier in one statement.  A repository publishes v0..vn
+    ([publishes]); the scenario lists an ARBITRARY set [pf] of published patches
+    that are bad (missing, or with a digest other than the recorded one — corrupted
+    or truncated), whether the full file is unavailable ([ff]), and ANY schedule of
+    open / write_i / close / rename / unlink faults; the local copy is at any v_i,
+    current, foreign or absent.  Then the run of the model satisfies
+    [property_holds] — the very predicate [holds] evaluates on the implementation:
+    it converges where the Spec says it must, fails safely where it must, and
+    does one of the two everywhere else.
+    Hash hypotheses: [no_collision] (local vs. the n+1 published versions) and
+    no second content with the digest of vn. *)
+Theorem C19_update_meets_spec_intact :
+  forall H e fs sc paras v0 steps px pf ff,
+    let k := choose_kind (concat paras) in
+    let vn := current (versions v0 steps) in
+    let s := mkscn (versions v0 steps) (f_local fs) IdxIntact pf ff (s_eff sc) (s_unlink sc) in
+    f_new fs = None ->
+    read_index py_isspace (e_index e) = Ok (IndexFields paras) ->
+    concat paras = px_fields px ->
+    hash_avail e k = true ->
+    publishes_py (prefix_of k) (H k) v0 steps px = true ->
+    patches_as_scenario (H k) e pf 0 steps = true ->
+    forallb (fun j => j <? List.length steps) pf = true ->
+    full_as_scenario e vn ff = true ->
+    match f_local fs with
+    | Some local => no_collision (H k) local (versions v0 steps)
+    | None => true
+    end = true ->
+    (forall x, H k x = H k vn -> x = vn) ->
+    property_holds s (observe (update_file_py H e fs sc)) = true.
+Proof. exact update_meets_spec_intact_py. Qed.
+
+(** and through the correspondence: a case of the check on which [agree] holds
+    and whose world is such a repository satisfies [holds] *)
+Theorem C19_agree_intact_implies_holds :
+  forall u paras v0 steps px pf ff,
+    let pool := pool_of u in
+    let H := pool_hash (map (@concat N) pool) in
+    let e := env_of u in
+    let fs := mkfs (option_map (deref pool) (u_local u)) None in
+    let sc := mksched (u_eff u) (u_unlink u) in
+    let k := choose_kind (concat paras) in
+    let vn := current (versions v0 steps) in
+    agree_update u = true ->
+    scenario_of u = mkscn (versions v0 steps) (f_local fs) IdxIntact pf ff (s_eff sc) (s_unlink sc) ->
+    read_index py_isspace (e_index e) = Ok (IndexFields paras) ->
+    concat paras = px_fields px ->
+    hash_avail e k = true ->
+    publishes_py (prefix_of k) (H k) v0 steps px = true ->
+    patches_as_scenario (H k) e pf 0 steps = true ->
+    forallb (fun j => j <? List.length steps) pf = true ->
+    full_as_scenario e vn ff = true ->
+    match f_local fs with
+    | Some local => no_collision (H k) local (versions v0 steps)
+    | None => true
+    end = true ->
+    (forall x, H k x = H k vn -> x = vn) ->
+    holds_update u = true.
+Proof. exact agree_intact_implies_holds. Qed.
+
+(** * 6. Every history
+
+    The premises about the index of theorems 2 and 5 are themselves theorems about
+    the mirror of a history ([mirror_env] / [mirror_index]: the Index file as text,
+    each patch under its name, the full file).  What remains as hypothesis is only
+    that the history can be published at all ([history_ok]: alignments chain up,
+    distinct patch names, names / sizes / digests are single tokens), that the
+    interpreter has the digest, and the hash hypotheses. *)
+Theorem C19_update_converges_all_histories :
+  forall H k cur_size v0 steps,
+    history_ok py_isspace (H k) cur_size v0 steps = true ->
+    forall sha1 sha256 sha2 local sc,
+    let e := mirror_env k (H k) sha1 sha256 sha2 cur_size v0 steps in
+    let vn := current (versions v0 steps) in
+    hash_avail e k = true ->
+    match local with
+    | Some l => no_collision (H k) l (versions v0 steps)
+    | None => true
+    end = true ->
+    no_faults sc = true ->
+    update_file_py H e (mkfs local None) sc = (Ok vn, mkfs (Some vn) None).
+Proof. exact update_converges_all_histories. Qed.
+
+Theorem C19_update_meets_spec_all_histories :
+  forall H k cur_size v0 steps,
+    history_ok py_isspace (H k) cur_size v0 steps = true ->
+    forall e fs sc pf ff,
+    let vn := current (versions v0 steps) in
+    let s := mkscn (versions v0 steps) (f_local fs) IdxIntact pf ff (s_eff sc) (s_unlink sc) in
+    f_new fs = None ->
+    e_index e = IdxLines (map Some (index_lines (mirror_index (prefix_of k) (H k) cur_size v0 steps))) ->
+    hash_avail e k = true ->
+    patches_as_scenario (H k) e pf 0 steps = true ->
+    forallb (fun j => j <? List.length steps) pf = true ->
+    full_as_scenario e vn ff = true ->
+    match f_local fs with
+    | Some local => no_collision (H k) local (versions v0 steps)
+    | None => true
+    end = true ->
+    (forall x, H k x = H k vn -> x = vn) ->
+    property_holds s (observe (update_file_py H e fs sc)) = true.
+Proof. exact update_meets_spec_all_histories. Qed.
 
 (** * Non-vacuity
 
@@ -377,7 +519,25 @@ Example C19_nonvacuous_faults :
   /\ read_index py_isspace (e_index Ex.e_short) = Ok (IndexFields [px_fields Ex.px_short])
   /\ index_records py_isspace py_islinebreak (prefix_of k) (injH k) Ex.v0 Ex.steps [Ex.s1] Ex.px_short = true
   /\ existsb (fun s => negb (existsb (str_eqb (ps_name s)) (map ps_name [Ex.s1]))) Ex.steps = true
-  /\ update_file_py injH Ex.e_short Ex.at_v0 Ex.quiet = (Ok Ex.v2, mkfs (Some Ex.v2) None).
+  /\ update_file_py injH Ex.e_short Ex.at_v0 Ex.quiet = (Ok Ex.v2, mkfs (Some Ex.v2) None)
+  /\ map (fun i => unusable_index py_isspace py_islinebreak (mkenv true true true i (fun _ => Err IOError) (Ok Ex.v2)))
+       [IdxAbsent; IdxLines []; IdxLines [Some (dec " x")];
+        IdxLines [Some (dec "SHA1-History: a b" ++ [10%N])%list; Some (dec "SHA1-Current: a 1" ++ [10%N])%list];
+        IdxLines [Some (dec "SHA1-Current: a 1 2" ++ [10%N])%list];
+        e_index Ex.e]
+     = [true; true; true; true; true; false]
+  /\ forallb (not_uptodate py_isspace k (injH k Ex.v0)) [(dec "SHA1-Current", (injH k Ex.v2 ++ dec " 6")%list)] = true
+  (* the mirror of the history *)
+  /\ history_ok py_isspace (injH k) (dec "6") Ex.v0 Ex.steps = true
+  /\ hash_avail (mirror_env k (injH k) true false false (dec "6") Ex.v0 Ex.steps) k = true
+  (* the verdict table: second patch bad, local at v0 / at v2, with and without a rename fault *)
+  /\ patches_as_scenario (injH k) Ex.e_garbled [1%nat] 0 Ex.steps = true
+  /\ full_as_scenario Ex.e_garbled Ex.v2 false = true
+  /\ map (fun c : option (list str) * list bool =>
+            verdict_of (mkscn [Ex.v0; Ex.v1; Ex.v2] (fst c) IdxIntact [1%nat] false (snd c) false))
+       [(Some Ex.v0, []); (Some Ex.v2, []); (Some Ex.v2, [false; true]); (None, []);
+        (None, [false; false; false; false; false; false; true]); (None, [true])]
+     = [MustFail; MustConverge; Either; MustConverge; Either; MustFail].
 Proof.
   cbv zeta. split; [vm_compute; reflexivity|]. split; [vm_compute; reflexivity|].
   split; [vm_compute; reflexivity|]. split; [intros x; apply injH_inj|].
@@ -396,8 +556,15 @@ Print Assumptions C19_unusable_index_absent.
 Print Assumptions C19_unusable_index_unparseable.
 Print Assumptions C19_unusable_index_no_current.
 Print Assumptions C19_unusable_index_malformed_field.
+Print Assumptions C19_unusable_index_malformed_field_anywhere.
 Print Assumptions C19_unusable_index_missing_digest.
+Print Assumptions C19_update_unusable_index_downloads.
+Print Assumptions C19_update_unusable_index_converges.
 Print Assumptions C19_update_success_is_current.
 Print Assumptions C19_update_fault_safe_converges.
 Print Assumptions C19_update_write_fault_raises.
 Print Assumptions C19_update_garbled_patch_raises.
+Print Assumptions C19_update_meets_spec_intact.
+Print Assumptions C19_agree_intact_implies_holds.
+Print Assumptions C19_update_converges_all_histories.
+Print Assumptions C19_update_meets_spec_all_histories.
